@@ -27,6 +27,7 @@ use crate::error::Error;
 use crate::hll::HllType;
 use crate::hll::container::COUPON_EMPTY;
 use crate::hll::container::Container;
+use crate::hll::get_value;
 use crate::hll::serialization::COMPACT_FLAG_MASK;
 use crate::hll::serialization::CUR_MODE_LIST;
 use crate::hll::serialization::EMPTY_FLAG_MASK;
@@ -93,21 +94,36 @@ impl List {
         }
         let stored = if compact { coupon_count } else { capacity };
 
-        // Read coupons
-        let mut coupons = vec![0u32; capacity];
+        // Read coupons. The list is rebuilt by insertion, so that the stored coupons are distinct,
+        // contiguous and counted: a table whose occupied slots disagree with the announced
+        // count (e.g. more occupied slots than the count) would never accept another coupon.
+        let mut list = List::new(lg_arr);
         if !empty && coupon_count > 0 {
-            for (i, coupon) in coupons.iter_mut().take(stored).enumerate() {
-                *coupon = cursor.read_u32_le().map_err(|_| {
+            for i in 0..stored {
+                let coupon = cursor.read_u32_le().map_err(|_| {
                     Error::insufficient_data(format!(
                         "expect {coupon_count} coupons, failed at index {i}"
                     ))
                 })?;
+                if coupon == COUPON_EMPTY {
+                    continue; // empty slot of an updatable image
+                }
+                if get_value(coupon) == 0 {
+                    return Err(Error::deserial(format!(
+                        "LIST mode: coupon {coupon:#x} has value 0"
+                    )));
+                }
+                list.update(coupon);
             }
         }
+        if list.container.len() != coupon_count {
+            return Err(Error::deserial(format!(
+                "LIST mode: image announces {coupon_count} coupons but holds {} distinct ones",
+                list.container.len()
+            )));
+        }
 
-        Ok(Self {
-            container: Container::from_coupons(lg_arr, coupons.into_boxed_slice(), coupon_count),
-        })
+        Ok(list)
     }
 
     /// Serialize a List to bytes
